@@ -498,13 +498,23 @@ func (eng *Engine) guardFor(t types.Type, mutex string) *Guard {
 }
 
 func (eng *Engine) chanInvFor(fc *FnCtx, elem types.Type) *ChanInv {
-	for _, ci := range eng.chanInvs {
-		t := eng.resolveType(eng.pkgs[ci.Pkg], ci.Elem)
-		if t != nil && types.Identical(t, elem) {
+	for _, ci := range eng.chanInvsFor(elem) {
+		if !ci.Assume {
 			return ci
 		}
 	}
 	return nil
+}
+
+func (eng *Engine) chanInvsFor(elem types.Type) []*ChanInv {
+	var out []*ChanInv
+	for _, ci := range eng.chanInvs {
+		t := eng.resolveType(eng.pkgs[ci.Pkg], ci.Elem)
+		if t != nil && types.Identical(t, elem) {
+			out = append(out, ci)
+		}
+	}
+	return out
 }
 
 // ---------- calls ----------
@@ -559,6 +569,11 @@ func (fc *FnCtx) evalCallWith(st *State, call *ast.CallExpr, preRecv *Val, preAr
 		return vs
 	}
 	if fc.isQuiet(f) && fc.eng.contractFor(f, fc.pkg) == nil {
+		fc.checkCallPre(st, call, f, nil, nil)
+		if f.Name() == "Wait" && fc.root().spawned {
+			// join point: whatever the goroutines spawned by this function did to the heap is visible from here on
+			fc.havocAll(st)
+		}
 		rs := fc.freshResults(st, call, "q_"+f.Name())
 		if f.Pkg() != nil && f.Pkg().Path() == "fmt" && f.Name() == "Errorf" && len(rs) == 1 {
 			st.assume("(> " + rs[0].T + " 0)")
@@ -1674,6 +1689,15 @@ func (fc *FnCtx) knownLibCall(st *State, call *ast.CallExpr, f *types.Func, recv
 				return []Val{{ite("(< "+recv.T+" "+args[0].T+")", "(- 1)", ite("(> "+recv.T+" "+args[0].T+")", "1", "0")), intT}}, true
 			}
 		}
+	case "encoding/json":
+		if f.Name() == "Unmarshal" && len(call.Args) == 2 {
+			// decodes into the object the second argument points to: its fields become arbitrary
+			if ue, ok := ast.Unparen(call.Args[1]).(*ast.UnaryExpr); ok && ue.Op == token.AND {
+				p := fc.addrOf(st, ue.X)
+				fc.havocReachable(st, p)
+				return []Val{fc.freshVal(st, "jsonerr", fc.resultTypes(call)[0])}, true
+			}
+		}
 	case "errors":
 		switch f.Name() {
 		case "New":
@@ -2149,6 +2173,9 @@ func (fc *FnCtx) checkCallPre(st *State, call *ast.CallExpr, f *types.Func, recv
 		return true
 	})
 	sig := f.Type().(*types.Signature)
+	if args == nil && len(call.Args) > 0 {
+		args = fc.evalArgs(st, call, sig)
+	}
 	scope := map[string]Val{}
 	if recv != nil {
 		scope["$recv"] = *recv
